@@ -783,12 +783,12 @@ def run(ctx) -> None:
     ctx.explanation = EXPLANATION
     hm = pmod("_helpers")
     fn = hm.func("precise_diff")
-    _py_utc_shift(ctx, hm, fn)
+    ctx.step(_py_utc_shift, ctx, hm, fn)
     roles = py_roles(fn)
     pc = py_chain(ctx, hm, fn)
     ctx.ob("BORROW.chain", "py:precise_diff", pc == WANT_CHAIN,
            f"Python borrow chain {pc}; the documented ranges need {WANT_CHAIN} in this order", hm.loc(fn))
-    _py_outputs(ctx, hm, fn, roles)
+    ctx.step(_py_outputs, ctx, hm, fn, roles)
     try:
         py_region, node = _month_region_py(hm, fn, roles)
     except core.Unsupported as e:
@@ -824,12 +824,12 @@ def run(ctx) -> None:
                        "rust/src/python/helpers.rs")
             except core.Unsupported as e:
                 ctx.unverified("MONTHBRANCH.agree", "rs:precise_diff", str(e), "rust/src/python/helpers.rs")
-    _backend_switch(ctx)
-    _interval_props(ctx)
+    ctx.step(_backend_switch, ctx)
+    ctx.step(_interval_props, ctx)
     from ..rules import addduration as AD
     from . import C15
-    C15.clamp_dependencies(ctx)
-    AD.month_clamp_order(ctx)    # a + (b - a) == b relies on the month shift / clamp of add_duration
+    ctx.step(C15.clamp_dependencies, ctx)
+    ctx.step(AD.month_clamp_order, ctx)    # a + (b - a) == b relies on the month shift / clamp of add_duration
     ctx.expect_min("BORROW", 6)
     ctx.expect_min("UTCSHIFT", 4)
     if mir is not None:
